@@ -21,10 +21,10 @@ RULE = ("accuracy/precision/recall/F-beta(1/2,1,2) on all pairs of binary vector
         "target pairs over -2..2 (length <=2/3 all, 3/4 sampled); ROC-AUC on every (label, score in 0..2) vector of length "
         "<=4/6 enumerated by TLC; homogeneity/completeness/V on all labelling pairs over 3 labels of length <=4/5 each with "
         "swap and injective relabelling; plus seeded random inputs of length <=200 (class balances down to a single "
-        "positive/negative, tied/constant/continuous scores, targets a/U*2^e, 1..8(16) clusters with arbitrary labels, "
+        "positive/negative, tied/constant/continuous scores, targets (a/U+off)*2^e incl. the offset family off=2^30,1e9 (f64) / 2^15,5e4 (f32), 1..8(16) clusters with arbitrary labels, "
         "product/identical/dyadic layouts, length mismatches) and quick_argsort vectors. An evaluation is non-trivial "
         "when it is an AUC call with tied scores, or a binary metric with a single positive or negative, or a regression "
-        "call with non-integer or rescaled targets, or a clustering call with a single-class labelling or a mixed dyadic "
+        "call with non-integer, rescaled or offset targets, or a clustering call with a single-class labelling or a mixed dyadic "
         "table or an exactly independent pair; distinct = distinct (metric, type, a, b, beta, U, e) digests")
 
 KEY_SINGLE_CLASS = "hcv: labels_true has a single class -> homogeneity is not finite"
@@ -32,7 +32,7 @@ KEY_SINGLE_CLUSTER = "hcv: labels_pred has a single cluster -> completeness is n
 
 TRACE_SPEC = ("metrics/MetricsTrace.tla", "metrics/MetricsTrace.cfg")
 MUST_HIT = ("accuracy", "precision", "recall", "fbeta", "auc", "mse", "mae", "r2", "LengthMismatch", "Unconstrained",
-            "AucTies", "AucConstant", "SinglePosOrNeg", "Scaled", "Expect", "HCV", "HcvSingleClass", "HcvPure", "HcvMixed",
+            "AucTies", "AucConstant", "SinglePosOrNeg", "Scaled", "Offset", "Expect", "HCV", "HcvSingleClass", "HcvPure", "HcvMixed",
             "HcvDyadic", "HcvDyadicMixed", "HcvIndependent", "HcvIdentical", "ArgSort", "ArgSortLong")
 
 
@@ -61,7 +61,8 @@ def key_of(e, clause):
         elif e["name"] in ("precision", "recall", "fbeta"):
             extra = " pos=%d predpos=%d beta=%d/%d" % (sum(e["a"]), sum(e["b"]), e["b1"], e["b2"])
         elif e["name"] in ("mse", "mae", "r2"):
-            extra = " U=%d e=%d" % (e["U"], e["e"])
+            extra = " U=%d e=%d offset=%s" % (e["U"], e["e"], "0" if e.get("off", 0) == 0 else "2^%d..2^%d" % (
+                abs(e["off"]).bit_length() - 1, abs(e["off"]).bit_length()))
         return "metric %s: %s n=%d/%d%s" % (clause, e["ty"], n, len(e["b"]), extra)
     if e["ev"] == "HCV":
         return "hcv %s: %s n=%d classes=%d clusters=%d" % (clause, e["ty"], len(e["a"]), len(set(e["a"])), len(set(e["b"])))
@@ -79,7 +80,7 @@ def nontrivial(e):
             s = sum(e["a"])
             return len(e["a"]) > 2 and (s == 1 or s == len(e["a"]) - 1)
         if e["name"] in ("mse", "mae", "r2"):
-            return e["U"] != 1 or e["e"] != 0
+            return e["U"] != 1 or e["e"] != 0 or e.get("off", 0) != 0
         return False
     if e["ev"] == "HCV":
         ka, kb = len(set(e["a"])), len(set(e["b"]))
@@ -124,7 +125,7 @@ def run(ctx):
     for e in events:
         if nontrivial(e):
             nt.add(vlib.digest([e.get("name", e["ev"]), e.get("ty"), e.get("a", e.get("x")), e.get("b"), e.get("b1"), e.get("b2"),
-                                e.get("U"), e.get("e")]))
+                                e.get("U"), e.get("e"), e.get("off")]))
     ctx.evaluations = len(events)
     ctx.traces = len(events) + nsort
     ctx.extra["skipped_out_of_range"] = skipped
@@ -142,7 +143,8 @@ def run(ctx):
     s += [e for e in events if e["ev"] == "HCV" and len(set(e["a"])) == 1 and len(e["a"]) == 4 and len(set(e["b"])) == 3][:1]
     s += [e for e in events if e["ev"] == "Metric" and e["status"] == "panic"][:1]
     ctx.samples = s
-    ctx.assumptions = ["labels and targets are integers (targets in units 1/U, U in {1,2,4}, fed times 2^e exactly)",
+    ctx.assumptions = ["labels and targets are integers (targets in units 1/U, U in {1,2,4}, fed as (a/U + off) * 2^e exactly; MSE/MAE/R2 are "
+                       "shift invariant, so the exact rationals are evaluated on the small integers)",
                        "AUC scores enter the specification as dense ranks (order and ties preserved)",
                        "outputs are compared at round(v*2^S); S is chosen by the harness from the input magnitudes only",
                        "clustering inputs have <=200 items and <=16 classes (margin of the <1 clause)"]
